@@ -380,8 +380,21 @@ def parse_int(s, base=10):
 # ---------------------------------------------------------------------------
 # hex / base64 over symbolic bytes
 
+def _mark(kind, c):
+    """remember that the code point term c is a character of the given alphabet by construction"""
+    if isinstance(c, SymInt) and core.active():
+        cx = ctx()
+        cx.memo[(kind, c.t.get_id())] = True
+        cx.keep.append(c.t)
+    return c
+
+
+def _marked(kind, c):
+    return isinstance(c, SymInt) and core.active() and ctx().memo.get((kind, c.t.get_id())) is True
+
+
 def _hex_digit(n):
-    return sx_ite(n < 10, n + 48, n + 87)
+    return _mark('hexok', sx_ite(n < 10, n + 48, n + 87))
 
 
 def hex_of(b):
@@ -418,7 +431,10 @@ def unhex(s):
     if len(cps) % 2:
         raise _ba.Error('Odd-length string')
     symbolic = [c for c in cps if not isinstance(c, int)]
-    fast = bool(sx_and(*[_nibble_valid(c) for c in symbolic])) if symbolic else False
+    if symbolic and all(_marked('hexok', c) for c in symbolic):
+        fast = True
+    else:
+        fast = bool(sx_and(*[_nibble_valid(c) for c in symbolic])) if symbolic else False
     out = []
     for i in range(0, len(cps), 2):
         if fast:
@@ -436,7 +452,7 @@ def _b64_char(v):
     """sextet -> code point"""
     if isinstance(v, int):
         return ord('ABCDEFGHIJKLMNOPQRSTUVWXYZabcdefghijklmnopqrstuvwxyz0123456789+/'[v])
-    return sx_ite(v < 26, v + 65, sx_ite(v < 52, v + 71, sx_ite(v < 62, v - 4, sx_ite(v == 62, 43, 47))))
+    return _mark('b64ok', sx_ite(v < 26, v + 65, sx_ite(v < 52, v + 71, sx_ite(v < 62, v - 4, sx_ite(v == 62, 43, 47)))))
 
 
 def b64_of(b):
@@ -495,7 +511,10 @@ def unb64(s):
     if symbolic:
         # one decision: every symbolic character is an alphabet character (always the case for
         # text produced by b64_of); otherwise fall back to the per-character case split
-        fast = bool(sx_and(*[_sextet_valid(c) for c in symbolic]))
+        if all(_marked('b64ok', c) for c in symbolic):
+            fast = True
+        else:
+            fast = bool(sx_and(*[_sextet_valid(c) for c in symbolic]))
     sext = []
     npad = 0
     for c in cps:
